@@ -4,10 +4,11 @@ specs/ReportTree.tla to valjean.javert.rst (Rst.format_report / FormattedRst.wri
 spec -> code : TLC enumerates report trees (shape in pre-order encoding x titles from the alphabet incl.
                reserved and unusable names x result pattern); the state machine of ReportTree.tla (check,
                set-up, pages, figures) is model-checked against the clauses of the property.  Every
-               enumerated tree is built as a real TestReport with real test results, formatted and written
-               into a scratch directory whose parent is watched; the projection of the disk (pages with
-               headers / section texts / anchors / toctree entries / image targets, figures, files outside)
-               is judged by TLC (ReportTreeTrace.tla evaluates the clauses of ReportTree.tla) and, for trees
+               enumerated tree is built as a real TestReport with real test results and run through a usage
+               history (PLANS: the formatted report written once / to several directories / twice in place,
+               one formatter for two reports, A-B-A) in a scratch directory whose parent is watched; the
+               projection of every written directory (pages with headers / section texts / result
+               appearances / toctree entries / image targets, figures, files outside) is judged by TLC (ReportTreeTrace.tla evaluates the clauses of ReportTree.tla) and, for trees
                the model writes, compared with the final disk of the model (differences = drift).
 code -> spec : seeded random trees outside the enumerated domain (more sections, arbitrary title strings,
                results with figures) are written and validated by ReportTreeTrace.tla.
@@ -57,7 +58,7 @@ def _result(k, j):
     ref = Dataset(base.copy(), np.full(3, 0.5), bins=bins, name='ref')
     other = Dataset(base + (np.array([0.0, 1.0, 0.0]) if j == 1 else 0.0), np.full(3, 0.5),
                     bins=OrderedDict([('e', np.arange(4, dtype=float))]), name='oth')
-    return TestEqual(ref, other, name='res_%d_%d' % (k, j)).evaluate()
+    return TestEqual(ref, other, name='res_%d_%d' % (k, j), description='resultmark%dx%d.' % (k, j)).evaluate()
 
 
 def build_report(case):
@@ -80,6 +81,28 @@ def build_report(case):
 
 
 _TOC = re.compile(r'^\.\. toctree::[ \t]*\n((?:[ \t]+.*\n|[ \t]*\n)*)', re.M)
+_TARGET = re.compile(r'^[ \t]*\.\. _(.+?):[ \t]*$', re.M)          # an explicit hyperlink target, whatever its label
+_MARK = re.compile(r'resultmark(\d+)x(\d+)\.')
+
+
+def result_occurrences(text, anchors):
+    """Where the results appear on a page, in page order.  A result is recognised by what it is, not by how a label is
+    spelled: its own description (the token given to it by _result) and any explicit target `.. _<label>:` whose label
+    carries its fingerprint.  Several differently spelled targets of one result (aliases) are one appearance; the same
+    label n times, or the description n times, are n appearances."""
+    groups = {}
+    for m in _MARK.finditer(text):
+        groups.setdefault(((int(m.group(1)), int(m.group(2))), None), []).append(m.start())
+    for m in _TARGET.finditer(text):
+        label = m.group(1).strip().strip('`').lower()
+        for fp, kj in anchors.items():
+            if fp in label:
+                groups.setdefault((tuple(kj), label), []).append(m.start())
+    best = {}
+    for (kj, _), pos in sorted(groups.items(), key=lambda g: (g[0][0], g[0][1] or '')):
+        if len(pos) > len(best.get(kj, [])):
+            best[kj] = pos
+    return [list(kj) for _, kj in sorted((p, kj) for kj, pos in best.items() for p in pos)]
 
 
 def read_page(text, anchors):
@@ -89,7 +112,6 @@ def read_page(text, anchors):
         if a and b and len(b) == len(a) and b[0] in HEADER_CHARS and b == b[0] * len(b):
             headers.append(a)
     texts = [int(m) for m in re.findall(r'sectiontext(\d+)\.', text)]
-    anch = [anchors.get(fp, [0, 0]) for fp in re.findall(r'^\.\. _anchor_([0-9a-f]+):', text, flags=re.M)]
     toc = []
     for block in _TOC.findall(text):
         for line in block.split('\n'):
@@ -98,57 +120,154 @@ def read_page(text, anchors):
                 entry = entry[:-4] if entry.endswith('.rst') else entry
                 toc.append(entry.split('/'))
     images = re.findall(r'^\.\. image:: (\S+)', text, flags=re.M)
-    return dict(headers=headers, texts=texts, anchors=anch, toc=toc, images=images)
+    return dict(headers=headers, texts=texts, anchors=result_occurrences(text, anchors), toc=toc, images=images)
+
+
+# --------------------------------------------------------------------------------------------
+# usage histories: how often and in which order the formatter and the formatted report are used.  Every write of a
+# history is one record judged by TLC with the tree that was written; the suffix names the past of the objects.
+# ops: ('format', slot, 'A' | 'B' [, formatter: default 'F'])  /  ('write', slot, directory, key suffix)
+# The first write of every history is the plain one (fresh formatter, fresh formatted report, fresh directory).
+# --------------------------------------------------------------------------------------------
+PLANS = {
+    'once': [('format', 'a', 'A'), ('write', 'a', 'report', '')],
+    'twice': [('format', 'a', 'A'), ('write', 'a', 'report', ''), ('write', 'a', 'copy2', '/written-again')],
+    'thrice': [('format', 'a', 'A'), ('write', 'a', 'report', ''), ('write', 'a', 'copy2', '/written-again'),
+               ('write', 'a', 'copy3', '/written-again')],
+    'again-in-place': [('format', 'a', 'A'), ('write', 'a', 'report', ''), ('write', 'a', 'report', '/written-again-in-place')],
+    'format-both-first': [('format', 'a0', 'A', 'G'), ('write', 'a0', 'report', ''), ('format', 'a', 'A'), ('format', 'b', 'B'),
+                          ('write', 'a', 'copy2', '/formatter-reused-before-writing'),
+                          ('write', 'b', 'copy3', '/formatter-reused')],
+    'a-b-a': [('format', 'a', 'A'), ('write', 'a', 'report', ''), ('format', 'b', 'B'),
+              ('write', 'b', 'copy2', '/formatter-reused'), ('write', 'a', 'copy3', '/written-again-after-another')],
+}
+PLAN_ORDER = ('twice', 'once', 'a-b-a', 'again-in-place', 'format-both-first', 'thrice')
+DISTURBED = '/directory-changed-by-later-write'
+
+
+def tree_of(case):
+    return dict(parent=list(case['parent']), title=list(case['title']), nres=list(case['nres']))
+
+
+def assign_plans(cases):
+    """Every case gets a usage history in rotation (cases with figures have a rotation of their own so that every
+    history is run with figures) and, as second report of the history, the tree of the next case."""
+    count = {False: 0, True: 0}
+    for k, case in enumerate(cases):
+        fig = bool(case.get('figures'))
+        case.pop('other', None)
+        case['plan'] = PLAN_ORDER[count[fig] % len(PLAN_ORDER)]
+        count[fig] += 1
+        if any(op[2] == 'B' for op in PLANS[case['plan']] if op[0] == 'format'):
+            case['other'] = tree_of(cases[(k + 1) % len(cases)])
+    return cases
+
+
+def project(scratch, name, anchors):
+    """The projection of the directory <scratch>/<name>."""
+    target = os.path.join(scratch, name)
+    inside, pages, figs = [], [], []
+    if os.path.isdir(target):
+        for root, dirs, files in os.walk(target):
+            rel = os.path.relpath(root, target)
+            for entry in sorted(dirs + files):
+                inside.append(os.path.normpath(os.path.join(rel, entry)))
+            for entry in sorted(files):
+                relp = os.path.normpath(os.path.join(rel, entry))
+                if entry.endswith('.rst'):
+                    with open(os.path.join(root, entry)) as f:
+                        page = read_page(f.read(), anchors)
+                    page['path'] = relp[:-4].split(os.sep)
+                    pages.append(page)
+                elif relp.startswith('figures' + os.sep):
+                    figs.append('/' + relp.replace(os.sep, '/'))
+    elif os.path.exists(target):
+        inside.append('%s is a file' % name)
+    return dict(created=bool(inside), inside=sorted(inside), pages=sorted(pages, key=lambda p: p['path']), figs=sorted(figs))
 
 
 def observe(case):
-    """Write the report of `case` on the real code into <scratch>/report and project the disk."""
+    """Run the usage history of `case` on the real code in a watched scratch directory -> one observation per write:
+    dict(suffix, tree, rejected, why, outside, created, inside, pages, figs)."""
     from valjean.javert import representation as rpr
     from valjean.javert.rst import Rst
     from valjean.javert.verbosity import Verbosity
     scratch = tempfile.mkdtemp(prefix='verif-c20-', dir=os.environ.get('VERIF_C20_TMP') or None)
-    target = os.path.join(scratch, 'report')
-    obs = dict(rejected=False, why='')
+    trees = dict(A=tree_of(case), B=case.get('other'))
+    writes = []
     try:
-        report, anchors = build_report(case)
-        rep = rpr.FullRepresenter() if case.get('figures') else rpr.TableRepresenter()
-        try:
-            fmt = Rst(rpr.Representation(rep, Verbosity.FULL_DETAILS), n_workers=case.get('workers')).format_report(report=report, author='me', version='1')
-            fmt.write(target)
-        except Exception as ex:  # pylint: disable=broad-except
-            obs['rejected'] = True
-            obs['why'] = '%s: %s' % (type(ex).__name__, str(ex)[:120])
-        obs['outside'] = sorted(x for x in os.listdir(scratch) if x != 'report')
-        inside = []
-        pages = []
-        figs = []
-        if os.path.isdir(target):
-            for root, dirs, files in os.walk(target):
-                rel = os.path.relpath(root, target)
-                for name in sorted(dirs + files):
-                    inside.append(os.path.normpath(os.path.join(rel, name)))
-                for name in sorted(files):
-                    relp = os.path.normpath(os.path.join(rel, name))
-                    if name.endswith('.rst'):
-                        with open(os.path.join(root, name)) as f:
-                            page = read_page(f.read(), anchors)
-                        page['path'] = relp[:-4].split(os.sep)
-                        pages.append(page)
-                    elif relp.startswith('figures' + os.sep):
-                        figs.append('/' + relp.replace(os.sep, '/'))
-        elif os.path.exists(target):
-            inside.append('report is a file')
-        obs.update(created=bool(inside), inside=sorted(inside), pages=sorted(pages, key=lambda p: p['path']), figs=sorted(figs))
+        formatters, slots, used, last = {}, {}, [], {}
+        for op in PLANS[case.get('plan') or 'once']:
+            if op[0] == 'format':
+                tree = trees[op[2]]
+                report, anchors = build_report(tree)
+                slot = dict(tree=tree, anchors=anchors, fmt=None, why='')
+                fname = op[3] if len(op) > 3 else 'F'
+                if fname not in formatters:
+                    rep = rpr.FullRepresenter() if case.get('figures') else rpr.TableRepresenter()
+                    formatters[fname] = Rst(rpr.Representation(rep, Verbosity.FULL_DETAILS), n_workers=case.get('workers'))
+                try:
+                    slot['fmt'] = formatters[fname].format_report(report=report, author='me', version='1')
+                except Exception as ex:  # pylint: disable=broad-except
+                    slot['why'] = '%s: %s' % (type(ex).__name__, str(ex)[:120])
+                slots[op[1]] = slot
+                continue
+            _, sname, dname, suffix = op
+            slot = slots[sname]
+            obs = dict(suffix=suffix, tree=slot['tree'], rejected=False, why='', dir=dname)
+            if slot['fmt'] is None:
+                obs.update(rejected=True, why=slot['why'])
+            else:
+                try:
+                    slot['fmt'].write(os.path.join(scratch, dname))
+                except Exception as ex:  # pylint: disable=broad-except
+                    obs.update(rejected=True, why='%s: %s' % (type(ex).__name__, str(ex)[:120]))
+            if dname not in used:
+                used.append(dname)
+            obs['outside'] = sorted(x for x in os.listdir(scratch) if x not in used)
+            obs.update(project(scratch, dname, slot['anchors']))
+            writes.append(obs)
+            last[dname] = (obs, slot)
+        for dname, (obs, slot) in last.items():          # a later write must not have touched an earlier directory
+            now = project(scratch, dname, slot['anchors'])
+            if any(now[f] != obs[f] for f in now):
+                writes.append(dict(obs, suffix=DISTURBED, outside=sorted(x for x in os.listdir(scratch) if x not in used), **now))
     finally:
         shutil.rmtree(scratch, ignore_errors=True)
-    return obs
+    return writes
 
 
-def trace_record(cid, case, obs):
-    return dict(id=cid, parent=list(case['parent']), title=[title_rec(t) for t in case['title']], nres=list(case['nres']),
+def trace_record(cid, tree, obs):
+    return dict(id=cid, parent=list(tree['parent']), title=[title_rec(t) for t in tree['title']], nres=list(tree['nres']),
                 rejected=obs['rejected'], created=obs['created'], outside=obs['outside'], figs=obs['figs'],
                 pages=[dict(path=p['path'], headers=p['headers'], texts=p['texts'], anchors=p['anchors'], toc=p['toc'],
                             images=p['images']) for p in obs['pages']])
+
+
+def judge_writes(writes_of, wd, tag, account=None):
+    """writes_of: per case the observations of observe().  Every write is a record for TLC; identical records (same
+    tree, same disk: the usual outcome of writing a report again) are judged once.
+    -> ([([(case index, write index) of the writes with this record], [false clauses])], records judged by TLC)"""
+    uniq, members = {}, []
+    for ci, writes in enumerate(writes_of):
+        for wi, o in enumerate(writes):
+            sig = json.dumps(trace_record(0, o['tree'], o), sort_keys=True)
+            if sig not in uniq:
+                uniq[sig] = len(members)
+                members.append([])
+            members[uniq[sig]].append((ci, wi))
+    records = [trace_record(rid, writes_of[m[0][0]][m[0][1]]['tree'], writes_of[m[0][0]][m[0][1]])
+               for rid, m in enumerate(members, 1)]
+    step = max(500, -(-len(records) // 6))
+    chunks = [(lo, records[lo:lo + step]) for lo in range(0, len(records), step)]
+    with ThreadPoolExecutor(max(1, len(chunks))) as pool:
+        judged = list(pool.map(lambda ch: judge(ch[1], wd, '%s%d' % (tag, ch[0])), chunks))
+    bad = []
+    for (lo, _), (res, b) in zip(chunks, judged):
+        if account:
+            account(res, lo)
+        bad.extend((members[rid - 1], clauses) for rid, clauses in sorted(b.items()))
+    return bad, len(records)
 
 
 def judge(records, wd, tag='t'):
@@ -193,10 +312,13 @@ def features(case):
     return feats or ['plain']
 
 
-def vkey(case, clauses):
-    if any(t.endswith('.rst') for t in case['title'][1:]):
+def vkey(case, clauses, write=None):
+    """case: the case that was run; write: the observation judged (its tree may be the second report of the history)."""
+    tree = write['tree'] if write else case
+    if any(t.endswith('.rst') for t in tree['title'][1:]):
         return 'C20/title-with-rst-suffix'          # one class whatever the symptom (see known_findings.d/C20.json)
-    return 'C20/%s/%s%s' % ('+'.join(clauses), features(case)[0], '/worker-pool' if case.get('workers') else '')
+    return 'C20/%s/%s%s%s' % ('+'.join(clauses), features(tree)[0], '/worker-pool' if case.get('workers') else '',
+                              write['suffix'] if write else '')
 
 
 def case_of_state(st, figures):
@@ -227,29 +349,32 @@ def _pmap(fn, items):
         return pool.map(fn, items, chunksize=16)
 
 
+def _describe(o):
+    return ('rejected=%s (%s) inside=%s outside=%s pages=%s figures=%d'
+            % (o['rejected'], o['why'], o['inside'][:8], o['outside'],
+               [(p['path'], p['headers'], p['texts'], p['anchors']) for p in o['pages']][:6], len(o['figs'])))
+
+
 def check_cases(ctx, cases, wd, tag, expected=None):
-    """Write every tree on the real code, let TLC judge the disks; expected: {index: model pages} for drift."""
+    """Run the usage history of every case on the real code, let TLC judge every written directory; expected: {index:
+    model pages} for drift."""
     obs = _pmap(_work, cases)
-    records = [trace_record(cid, case, o) for cid, (case, o) in enumerate(zip(cases, obs), 1)]
-    step = max(500, -(-len(records) // 6))
-    chunks = [(lo, records[lo:lo + step]) for lo in range(0, len(records), step)]
-    with ThreadPoolExecutor(len(chunks)) as pool:
-        judged = list(pool.map(lambda ch: judge(ch[1], wd, '%s%d' % (tag, ch[0])), chunks))
-    bad = {}
-    for (lo, _), (res, b) in zip(chunks, judged):
-        ctx.tlc(res, 'ReportTreeTrace/%s[%d:]' % (tag, lo))
-        bad.update(b)
-    for cid, clauses in sorted(bad.items()):
-        case, o = cases[cid - 1], obs[cid - 1]
-        ctx.violation(vkey(case, clauses),
-                      'clauses %s of ReportTree.tla are false: rejected=%s (%s) inside=%s outside=%s pages=%s'
-                      % (clauses, o['rejected'], o['why'], o['inside'][:8], o['outside'],
-                         [(p['path'], p['headers'], p['texts']) for p in o['pages']][:6]),
+    bad, njudged = judge_writes(obs, wd, tag, lambda res, lo: ctx.tlc(res, 'ReportTreeTrace/%s[%d:]' % (tag, lo)))
+    for group, clauses in bad:
+        # one finding per distinct (tree, disk): named after the write with the simplest past that shows it (a defect of
+        # the first write is not reported again for every later write that leaves the same disk)
+        ci, wi = min(group, key=lambda m: (obs[m[0]][m[1]]['suffix'] != '', m[1], m[0]))
+        case, o = cases[ci], obs[ci][wi]
+        ctx.violation(vkey(case, clauses, o),
+                      'clauses %s of ReportTree.tla are false for write %d of the history %r (directory %s, tree %s): %s'
+                      % (clauses, wi + 1, case.get('plan') or 'once', o['dir'],
+                         dict(o['tree'], title=[title_rec(t)['s'] for t in o['tree']['title']]), _describe(o)),
                       case, module=MOD)
+    badcases = set(ci for group, _ in bad for ci, _ in group)
     ndrift = 0
     for k, exp in (expected or {}).items():
-        o = obs[k]
-        if (k + 1) in bad or o['rejected'] or any(t.endswith('.rst') for t in cases[k]['title']):
+        o = obs[k][0]                       # the first write of the history is that of the case's own tree
+        if k in badcases or o['rejected'] or any(t.endswith('.rst') for t in cases[k]['title']):
             continue                        # (titles ending in .rst: see the open finding)
         got = [dict(path=p['path'], headers=p['headers'], texts=p['texts'], anchors=p['anchors'], toc=p['toc'])
                for p in o['pages']]
@@ -258,14 +383,24 @@ def check_cases(ctx, cases, wd, tag, expected=None):
             ndrift += 1
             ctx.drift('written pages differ from the model although every clause holds: tree %s: %s vs model %s'
                       % (cases[k], json.dumps(got)[:300], json.dumps(exp)[:300]))
-    for case, o in zip(cases, obs):
+    for case in cases:
         if len(case['parent']) > 1:
-            ctx.distinct((tuple(case['parent']), tuple(case['title']), tuple(case['nres']), bool(case.get('figures'))))
-    ctx.count(evaluations=len(cases), traces=len(cases))
+            ctx.distinct((tuple(case['parent']), tuple(case['title']), tuple(case['nres']), bool(case.get('figures')),
+                          case.get('plan') or 'once'))
+    nwrites = sum(len(w) for w in obs)
+    ctx.count(evaluations=nwrites, traces=njudged)
+    hist = ctx.cov.setdefault('usage_histories', {})
+    for case, writes in zip(cases, obs):
+        h = hist.setdefault(case.get('plan') or 'once', dict(cases=0, writes=0, with_figures=0))
+        h['cases'] += 1
+        h['writes'] += len(writes)
+        h['with_figures'] += bool(case.get('figures'))
     for k in (0, len(cases) // 2, len(cases) - 1):
-        o = obs[k]
-        ctx.sample(dict(source=tag, case=dict(cases[k], title=[title_rec(t)['s'] for t in cases[k]['title']]),
-                        rejected=o['rejected'], files=o['inside'][:12], outside=o['outside']))
+        o = obs[k][0]
+        ctx.sample(dict(source=tag, case=dict(cases[k], title=[title_rec(t)['s'] for t in cases[k]['title']],
+                                              other=None if not cases[k].get('other') else
+                                              dict(cases[k]['other'], title=[title_rec(t)['s'] for t in cases[k]['other']['title']])),
+                        writes=len(obs[k]), rejected=o['rejected'], files=o['inside'][:12], outside=o['outside']))
     return obs, bad
 
 
@@ -318,8 +453,15 @@ def run_c20(ctx):
              '{A, B, index, conf, figures, "", ".", "..", "a/b", NUL} x result pattern) is built as a real TestReport, '
              'written with Rst.format_report(...).write() into a watched scratch directory and the disk projection is '
              'judged by TLC; code->spec: seeded random trees (up to 9 sections, arbitrary title strings, figures) '
-             'validated by ReportTreeTrace.tla.  distinct_nontrivial = distinct trees with at least one section below '
-             'the root.')
+             'validated by ReportTreeTrace.tla.  Every tree is run through a usage history of the formatter and of the '
+             'formatted report, in rotation (cases with figures have their own rotation): written once; the same '
+             'formatted report written to two / three fresh directories; written twice into the same directory; two '
+             'reports (the tree and the next one) formatted by one formatter before either is written; A written, B '
+             'formatted and written, A written again.  Every written directory is one record judged by TLC with the '
+             'tree written into it (identical records are judged once), and a directory changed by a later write is '
+             'judged again.  A result is recognised on a page by its own description and by any explicit target whose '
+             'label carries its fingerprint, whatever the spelling of the label.  distinct_nontrivial = distinct '
+             '(tree, usage history) with at least one section below the root.')
     ctx.assume('a title is unusable as a file name iff it is empty, ".", ".." or contains "/" or NUL; an empty target '
                'directory left behind by a rejected write is tolerated, any entry in it is not')
     ctx.assume('sections with the same chain of titles (repeated sibling titles) may share one page provided each '
@@ -389,6 +531,7 @@ def run_c20(ctx):
     for k, case in enumerate(cases):
         if k % ctx.pick(150, 60) == 7 and sum(case['nres']) > 0:
             case['figures'] = True
+    assign_plans(cases)
     check_cases(ctx, cases, wd, 'enumerated', expected)
     ctx.cov['inputs'] = dict(enumerated_by_tlc=len(cases))
     # the figures can be written by a pool of worker processes (the command line does it with 4): few and many
@@ -404,11 +547,12 @@ def run_c20(ctx):
     for k, (sig, case) in enumerate(sorted(wcases, key=lambda x: x[0])[:ctx.pick(6, 16)]):
         wsel.append(dict(case, figures=True, workers=(2, 4)[k % 2]))
     if wsel:
+        assign_plans(wsel)
         check_cases(ctx, wsel, wd, 'figure-workers')
         ctx.cov['inputs']['written_with_worker_pool'] = len(wsel)
     _tick(ctx, 'enumerated trees written + judged')
     # 3. code -> spec
-    rcases = random_cases(ctx.rng, ctx.pick(1000, 20000), 0.01)
+    rcases = assign_plans(random_cases(ctx.rng, ctx.pick(1000, 20000), 0.01))
     check_cases(ctx, rcases, wd, 'random')
     ctx.cov['inputs']['seeded_random'] = len(rcases)
     _tick(ctx, 'random trees')
@@ -420,9 +564,12 @@ def run_c20(ctx):
 def replay_case(case):
     wd = tlc.workdir('c20r')
     os.environ['VERIF_C20_TMP'] = tlc.workdir('c20w')
-    obs = observe(case)
-    _, bad = judge([trace_record(1, case, obs)], wd, 'r')
-    detail = 'rejected=%s (%s) inside=%s outside=%s' % (obs['rejected'], obs['why'], obs['inside'][:10], obs['outside'])
-    if 1 in bad:
-        return False, 'clauses %s false; %s' % (bad[1], detail)
-    return True, 'all clauses of ReportTree.tla hold; ' + detail
+    writes = observe(case)
+    bad, _ = judge_writes([writes], wd, 'r')
+    detail = '; '.join('write %d (%s%s): %s' % (wi + 1, o['dir'], o['suffix'], _describe(o)[:300]) for wi, o in enumerate(writes))
+    if bad:
+        return False, 'history %r: %s; %s' % (case.get('plan') or 'once', '; '.join(
+            'write %d (%s%s): clauses %s false' % (wi + 1, writes[wi]['dir'], writes[wi]['suffix'], cl)
+            for wi, cl in sorted((wi, cl) for group, cl in bad for _, wi in group)), detail)
+    return True, 'all clauses of ReportTree.tla hold for the %d written directories of history %r; %s' % (
+        len(writes), case.get('plan') or 'once', detail)
